@@ -51,7 +51,11 @@ theorem pacman_mask_iff_legal_along (tl : Int) (ads : List (Int × Draw))
   exact PacMan.mask_iff_legal_along tl ads _ (PacMan.reset_consistent _ hok).1 (PacMan.reset_consistent _ hok).2
     hok.binary hb hv
 
-/-- the same for ANY maze table satisfying the C10 specification whose borders mirror each other -/
+/-- the same for ANY maze table satisfying the C10 specification whose borders mirror each other — CONDITIONAL on `validRun`:
+every ghost move of the episode is assumed to satisfy `ghostMoveOK` (stay, or move to a FREE neighbour).  The real ghost policy
+satisfies this only on tables WITHOUT A DEAD END (`noDeadEndB`; the shipped maze has none:
+`Props.C10.pacman_default_maze_no_dead_end`); on a table with a dead end the real ghosts walk into walls, the hypothesis is false
+for real episodes and this theorem says nothing about them: `Props.C10.pacman_dead_end_ghost_witness` (audit r5 #1). -/
 theorem pacman_mask_iff_legal_along_of_table (t : MazeTable) (h : MazeTableOK t) (hb : BorderSymmetric t.grid) (tl : Int)
     (ads : List (Int × Draw)) (hv : validRun tl (PacMan.reset t.toState).1 ads = true) :
     ∀ s' ∈ trace tl (PacMan.reset t.toState).1 ads, ∀ a : Nat, a ≤ 4 →
@@ -185,7 +189,9 @@ theorem pacman_default_maze_reset :
   rw [PacMan.resetState_eq_ofAscii, Gen.PacManMaze.ascii_table]; rfl
 
 /-- for ANY maze table satisfying the specification, the state `reset` returns satisfies the consistency predicate
-of C07 and lists no pellet cell twice (the two hypotheses of `pacman_step_consistent`) -/
+of C07 and lists no pellet cell twice (the two hypotheses of `pacman_step_consistent`).  (About the RESET state only; that the
+ghosts stay on free cells afterwards is assumed by `validGhostDraw`, which real episodes meet only on tables without a dead
+end: `pacman_dead_end_ghost_witness`.) -/
 theorem pacman_reset_consistent (t : MazeTable) (h : MazeTableOK t) :
     Consistent (PacMan.reset t.toState).1 ∧ (nonzero (PacMan.reset t.toState).1.pelletLocs).Nodup :=
   PacMan.reset_consistent t h
@@ -214,18 +220,78 @@ that cell is free but cut off -/
 example : tableCheck { pacmanRing with grid := [[0, 0, 0, 0, 0], [1, 1, 1, 1, 1], [0, 1, 0, 1, 0], [0, 1, 0, 1, 0], [0, 0, 1, 0, 0]],
                                        ghosts := [(1, 3), (1, 3), (3, 3), (3, 2)], pellets := [(0, 1)] }
     (bfsDist [[0, 0, 0, 0, 0], [1, 1, 1, 1, 1], [0, 1, 0, 1, 0], [0, 1, 0, 1, 0], [0, 0, 1, 0, 0]] (1, 0)) = false := by decide +kernel
+
+/-! #### audit r5 #1: dead ends.  `MazeTableOK` (the C10 specification) does NOT exclude dead ends; `ghostMoveOK` — the hypothesis
+of every whole-episode C07 / C04 / C01 theorem — is what the real ghost policy does only on mazes without one. -/
+
+/-- the shipped maze (and the ring example) have no dead end: every free cell has at least two free neighbours -/
+theorem pacman_default_maze_no_dead_end :
+    noDeadEndB Gen.PacManMaze.grid = true ∧ noDeadEndB pacmanRing.grid = true := by
+  refine ⟨by decide +kernel, by decide +kernel⟩
+
+/-- a 7 × 12 `AsciiGenerator` maze with one dead end (row 1, column 9): four ghosts, player, four scatter targets, all free cells
+connected -/
+def pacmanDeadEndAscii : List String := [
+ "XXXXXXXXXXXX",
+ "XG        XX",
+ "X XXXXXXXXXX",
+ "XGG G  TTTTX",
+ "X XXXXXXXXXX",
+ "XSSSSOOOOP X",
+ "XXXXXXXXXXXX"]
+def pacmanDeadEnd : MazeTable :=
+  (MazeTable.ofAscii (pacmanDeadEndAscii.map String.toList)).getD ⟨[], (0, 0), [], [], [], []⟩
+
+/-- WITNESS (candidate finding, C07): the dead-end maze is parsed, SATISFIES the C10 specification (`tableCheck`, hence
+`MazeTableOK`) and has mirrored borders — all hypotheses on the table of the `_of_table` theorems — but has a dead end, and the
+move the REAL code makes there (seed 0, step 10: ghost 0 from (column 9, row 1) into the WALL (column 9, row 0); 190 such
+ghost-on-wall events over 6 seeds × 120 steps, reproduction in the report) is not admissible: `ghostMoveOK = false`, so
+`validGhostDraw` fails for every draw containing it and `validRun` is false for the real episode — the `_of_table` theorems
+are vacuous there, and the real environment violates C07 (a ghost on a wall cell). -/
+theorem pacman_dead_end_ghost_witness :
+    (MazeTable.ofAscii (pacmanDeadEndAscii.map String.toList)).isSome = true ∧
+    tableCheck pacmanDeadEnd (bfsDist pacmanDeadEnd.grid pacmanDeadEnd.player) = true ∧
+    BorderSymmetric pacmanDeadEnd.grid ∧
+    noDeadEndB pacmanDeadEnd.grid = false ∧
+    freeCR pacmanDeadEnd.grid (9, 1) ∧ ¬ freeCR pacmanDeadEnd.grid (9, 0) ∧
+    ((neighbours pacmanDeadEnd.grid (9, 1)).filter (fun c => decide (freeCR pacmanDeadEnd.grid c))) = [(8, 1)] ∧
+    ghostMoveOK pacmanDeadEnd.grid (9, 1) (9, 0) (-9) = false := by
+  refine ⟨by decide +kernel, by decide +kernel, by decide +kernel, by decide +kernel, by decide +kernel, by decide +kernel,
+    by decide +kernel, by decide +kernel⟩
+
+/-- … and `MazeTableOK pacmanDeadEnd` holds, so the table is in the scope of `pacman_run_consistent_of_table` -/
+theorem pacman_dead_end_table_ok : MazeTableOK pacmanDeadEnd :=
+  PacMan.tableCheck_sound _ _ pacman_dead_end_ghost_witness.2.1
+
+/-- consequence, stated on a state: for ANY state on that maze with ghost 0 at (column 9, row 1) (active: start counter ≤ 0) there
+is no admissible draw whose first path is the wall cell the real policy picks -/
+theorem pacman_dead_end_draw_not_valid (s : State) (d : Draw) (hg : s.grid = pacmanDeadEnd.grid)
+    (gs : List CR) (hs : s.ghosts = (9, 1) :: gs) (ps : List CR) (hp : d.paths = (9, 0) :: ps)
+    (st : Int) (sts : List Int) (hst : s.ghostStarts = st :: sts) (hst0 : st ≤ 0) :
+    validGhostDraw s d = false := by
+  have hmv : ghostMoveOK pacmanDeadEnd.grid (9, 1) (9, 0) st = false := by
+    have h1 : ¬ freeCR pacmanDeadEnd.grid (9, 0) := pacman_dead_end_ghost_witness.2.2.2.2.2.1
+    simp [ghostMoveOK, h1]
+  unfold validGhostDraw
+  rw [hs, hp, hst, hg]
+  simp [hmv]
 end Props.C10
 
 namespace Props.C07
 /-- whole episodes, generic: from a consistent state without duplicate pellet cells, every state of every episode
 (any action values, any time limit, any length, ghost draws admissible where they are used) is consistent, lists no
-pellet twice and has the maze of the start state — induction over the episode with `pacman_step_consistent` -/
+pellet twice and has the maze of the start state — induction over the episode with `pacman_step_consistent`.  The ghost
+conjunct ("ghosts on free cells") is what `validRun` / `ghostMoveOK` ASSUMES of every ghost move (audit r5 #9). -/
 theorem pacman_trace_consistent (tl : Int) (s : State) (ads : List (Int × Draw)) (hC : Consistent s)
     (hN : (nonzero s.pelletLocs).Nodup) (hv : validRun tl s ads = true) :
     ∀ s' ∈ trace tl s ads, Consistent s' ∧ (nonzero s'.pelletLocs).Nodup ∧ s'.grid = s.grid :=
   PacMan.trace_consistent tl ads s hC hN hv
 
-/-- whole episodes from `reset`, for ANY maze table satisfying the C10 specification -/
+/-- whole episodes from `reset`, for ANY maze table satisfying the C10 specification — CONDITIONAL on `validRun`: the ghost
+conjunct of `Consistent` (ghosts on free cells) is ASSUMED move by move through `ghostMoveOK`, not derived from the ghost policy
+(audit r5 #9).  The real policy satisfies `ghostMoveOK` only on tables without a dead end (`noDeadEndB`); on a table WITH a dead
+end — which `MazeTableOK` allows — real ghosts end on wall cells (C07 violated by the real code, candidate finding) and this
+theorem is vacuous for such episodes: `Props.C10.pacman_dead_end_ghost_witness` (audit r5 #1). -/
 theorem pacman_run_consistent_of_table (t : MazeTable) (h : MazeTableOK t) (tl : Int) (ads : List (Int × Draw))
     (hv : validRun tl (PacMan.reset t.toState).1 ads = true) :
     ∀ s' ∈ trace tl (PacMan.reset t.toState).1 ads, Consistent s' ∧ (nonzero s'.pelletLocs).Nodup ∧ s'.grid = t.grid :=
@@ -234,7 +300,9 @@ theorem pacman_run_consistent_of_table (t : MazeTable) (h : MazeTableOK t) (tl :
 /-- the shipped maze: every state of every episode of `PacMan()` (start state = the state the real `reset` returns,
 Gen/PacManMaze.lean) is consistent: the player and the four ghosts stay inside the maze on free cells, the remaining
 pellets / power-ups lie on free cells, the pellet counter is the number of remaining pellets (cell (0,0) of the
-shipped maze is a wall), the maze never changes -/
+shipped maze is a wall), the maze never changes.  The GHOST conjunct is assumed via `ghostMoveOK` inside `validRun` (audit r5 #9);
+the shipped maze has no dead end (`Props.C10.pacman_default_maze_no_dead_end`), which is when the real ghost policy meets it
+(12 real seeds × up to 1000 steps: 0 ghost-on-wall events). -/
 theorem pacman_run_consistent (tl : Int) (ads : List (Int × Draw))
     (hv : validRun tl (PacMan.reset Gen.PacManMaze.table.toState).1 ads = true) :
     ∀ s' ∈ trace tl (PacMan.reset Gen.PacManMaze.table.toState).1 ads,
@@ -263,6 +331,37 @@ theorem pacman_last_iff (tl : Int) (s : State) (a : Int) (d : Draw) :
     (step tl s a d).2.stepType = .last ↔
       (((step tl s a d).1.dead = true ∨ (step tl s a d).1.pellets = 0) ∨ tl ≤ s.stepCount + 1) :=
   PacMan.step_last_iff tl s a d
+
+/-- the "other cause" `dead` of `pacman_last_iff` / `pacman_exact` at the level of the RULES (audit r5 #4), for ALL states, actions
+and draws: the player is dead in the successor exactly when the ghosts are not frightened (`frightened_state_time ≤ 0`) and some
+ghost `i` TOUCHES the player — its new cell is the player's new cell, or its new cell is the player's old cell, or its old cell
+is the player's new cell (`touches`; `i` ranges over the common length of the four per-ghost lists, 4 in every consistent state) -/
+theorem pacman_dead_iff (tl : Int) (s : State) (a : Int) (d : Draw) :
+    (step tl s a d).1.dead = true ↔
+      (s.frightened ≤ 0 ∧ ∃ (i : Nat) (p o q : CR) (e : Bool), d.paths[i]? = some p ∧ s.initGhosts[i]? = some o ∧
+        s.oldGhosts[i]? = some q ∧ s.ghostEaten[i]? = some e ∧ touches s (nextPlayer s a) p q) :=
+  PacMan.dead_iff tl s a d
+
+/-- LAST with every cause at the level of the rules: a ghost touches the unprotected player, or the last pellet is eaten, or the
+limit is reached -/
+theorem pacman_last_iff_rules (tl : Int) (s : State) (a : Int) (d : Draw) :
+    (step tl s a d).2.stepType = .last ↔
+      (((s.frightened ≤ 0 ∧ ∃ (i : Nat) (p o q : CR) (e : Bool), d.paths[i]? = some p ∧ s.initGhosts[i]? = some o ∧
+          s.oldGhosts[i]? = some q ∧ s.ghostEaten[i]? = some e ∧ touches s (nextPlayer s a) p q) ∨
+        (step tl s a d).1.pellets = 0) ∨ tl ≤ s.stepCount + 1) := by
+  rw [PacMan.step_last_iff, PacMan.dead_iff]
+
+/-- a one-corridor example (player at (row 1, column 0) standing still, four ghosts): no ghost touches → alive; ghost 0 steps onto the
+player's cell (column 0, row 1) → dead; the same while the ghosts are frightened → alive -/
+def pacmanDeadEx : State :=
+  { grid := [[0,0,0,0],[1,1,1,1],[0,0,0,0]], pellets := 0, frightened := 0, pelletLocs := [], powerUps := [], player := (1,0),
+    ghosts := [(3,1),(3,1),(3,1),(3,1)], initGhosts := [(3,1),(3,1),(3,1),(3,1)], oldGhosts := [(3,1),(3,1),(3,1),(3,1)],
+    ghostInitSteps := [0,0,0,0], ghostActions := [4,4,4,4], lastDirection := 0, dead := false, ghostStarts := [0,0,0,0],
+    stepCount := 0, ghostEaten := [true,true,true,true], score := 0 }
+example : (step 10 pacmanDeadEx 4 ⟨[(3,1),(3,1),(3,1),(3,1)],[4,4,4,4]⟩).1.dead = false ∧
+    (step 10 pacmanDeadEx 4 ⟨[(0,1),(3,1),(3,1),(3,1)],[4,4,4,4]⟩).1.dead = true ∧
+    (step 10 { pacmanDeadEx with frightened := 5 } 4 ⟨[(0,1),(3,1),(3,1),(3,1)],[4,4,4,4]⟩).1.dead = false := by
+  refine ⟨by decide +kernel, by decide +kernel, by decide +kernel⟩
 
 /-- PacMan as an abstract step system (Core/Episode.lean; the ghost draw is part of the action) with the two-sided
 single-step law -/
@@ -355,25 +454,38 @@ example : BoundsInv pacmanBCfg pacmanBEx ∧ Consistent pacmanBEx := by decide
 `x ≤ y_size − 1`, `y ≤ x_size − 1` — maxima swapped; on the default 31 × 28 maze the player reaches row 28 > 27.) -/
 example : (observe pacmanBEx).player.1 = (pacmanBCfg.xSize : Int) - 1 := by decide
 
+/-! NOTE on what the membership theorems of this section do and do not cover (audits r4 #6, r5 #6, r6 #8): the dtype tag of every leaf
+is written by `toNValue` (by construction) — a wrong dtype in the real code cannot falsify `….valid (toNValue …) = true`; dtypes and
+field order of the real observations are compared by the `pac_man.spec` / `pac_man.state` ops (`nvalue`: field order, shape, dtype, data) and
+`jax.eval_shape` in the sweeps.  Shapes are READ OFF the value by `toNValue` (widths off the first row): see `…_obs_valid_only`. -/
+
 /-! #### membership in the DECLARED spec (wave 3): structure, shapes, dtypes and bounds -/
 open Sp PzS
 
 /-- the model's specs against the table generated from the real spec objects of `PacMan()` (Gen/Specs.lean): every
-generated leaf is the model's, in the same order (the `grid` leaf, 31·28 cells, and `pellet_locations` are above the size
-limit of the generated table: they are compared with the real objects by the `pac_man.spec` op on every run, for every
-configuration of the adapter) -/
+leaf of the real spec is the model's, in the same order (the `pac_man.spec` op also compares them with the real objects on every
+run, for every configuration of the adapter).
+(audit r5 #2) The generated table now holds every leaf whose BOUNDS are small, so the observation conjunct is about the WHOLE
+`obsSpec` — `grid` (31, 28) in `[0, 1]` and `pellet_locations` (318, 2) included; it used to be filtered to the leaves of at most 160
+elements.  SPEC-ONLY second configuration: `PacMan()` with the default time limit 1000 (no spec depends on it) -/
 theorem pacman_obsSpec_generated :
-    (prefixed "observation_spec." (obsSpec ⟨31, 28, 12⟩ Gen.PacManMaze.table.pellets.length)).filter
-        (fun e => decide (prod e.2.shape ≤ 160))
-      = declared "pacman" "observation_spec." ∧
+    prefixed "observation_spec." (obsSpec ⟨31, 28, 12⟩ Gen.PacManMaze.table.pellets.length) = declared "pacman" "observation_spec." ∧
     [("action_spec", actionSpec)] = declared "pacman" "action_spec" ∧
     [("reward_spec", PzS.rewardSpec)] = declared "pacman" "reward_spec" ∧
-    [("discount_spec", discountSpec)] = declared "pacman" "discount_spec" := by
-  refine ⟨by decide +kernel, by decide, by decide, by decide⟩
+    [("discount_spec", discountSpec)] = declared "pacman" "discount_spec" ∧
+    prefixed "observation_spec." (obsSpec ⟨31, 28, 1000⟩ Gen.PacManMaze.table.pellets.length) = declared "spec-only-pacman-default" "observation_spec." ∧
+    [("action_spec", actionSpec)] = declared "spec-only-pacman-default" "action_spec" ∧
+    [("reward_spec", PzS.rewardSpec)] = declared "spec-only-pacman-default" "reward_spec" ∧
+    [("discount_spec", discountSpec)] = declared "spec-only-pacman-default" "discount_spec" := by
+  refine ⟨by decide +kernel, by decide +kernel, by decide +kernel, by decide +kernel, by decide +kernel, by decide +kernel,
+    by decide +kernel, by decide +kernel⟩
 
 /-- `reset` establishes the invariant `SpecInv` (consistent, no duplicate pellet, bounds invariant, four power-up rows,
 `nPellets` pellet rows) for EVERY maze table satisfying the C10 specification with four power-ups, and EVERY step — any
-action value, any time limit, any admissible ghost draw — preserves it -/
+action value, any time limit, any admissible ghost draw — preserves it.  "Admissible" = `validGhostDraw` (`ghostMoveOK` per ghost);
+the real policy produces admissible draws only on tables without a dead end (`noDeadEndB`, audit r5 #1; witness
+`Props.C10.pacman_dead_end_ghost_witness`).  The dtype tag of every leaf is written by `toNValue` (by construction); dtypes and
+field order of the real observations are compared by the `pac_man.spec` / `state` ops and `jax.eval_shape` in the sweeps. -/
 theorem pacman_specInv_invariant :
     (∀ (t : MazeTable) (tl : Int), MazeTableOK t → t.powerUps.length = 4 →
       SpecInv ⟨xSize t.grid, ySize t.grid, tl⟩ t.pellets.length (PacMan.reset t.toState).1) ∧
@@ -416,7 +528,10 @@ theorem pacman_obs_valid_along (tl : Int) (ads : List (Int × Draw))
 
 /-- what membership means: `validate` accepts an observation ONLY IF the maze has `x_size` rows and `x_size · y_size`
 cells, all 0/1, the player's row is in [0, x_size − 1] and its column in [0, y_size − 1], and there are four ghost
-rows, four power-up rows, `nPellets` pellet rows and five mask bits -/
+rows, four power-up rows, `nPellets` pellet rows and five mask bits  CAVEAT (audits r4 #7, r5 #5, r6 #5): for every field that is a nested list, `toNValue` reads the widths off the FIRST row of the
+nested list, so the shape conjuncts here mean "row count, length of the first row, total number of cells" — a ragged value with the right total can be a
+member, and nothing is concluded about the later rows.  Rectangularity is part of the invariant (`SpecInv` / `Shaped` / `Rect…`) under which the
+forward theorems (`…_reset_obs_valid`, `…_step_obs_valid`, `…_along`) are proved, i.e. it holds of every EMITTED observation. -/
 theorem pacman_obs_valid_only (cfg : BCfg) (nP : Nat) (o : Obs) (h : (obsSpec cfg nP).valid (toNValue cfg o) = true) :
     List.length o.grid = cfg.xSize ∧ (List.flatten o.grid).length = cfg.xSize * cfg.ySize ∧
     (∀ v ∈ List.flatten o.grid, v = 0 ∨ v = 1) ∧
